@@ -145,16 +145,32 @@ def run_driver(lines):
     return out.split("\n")[:-1] if out.endswith("\n") else out.split("\n")
 
 
-def run_impl(binp, cases, extra_args=(), timeout_per_batch=600):
+def _limits():
+    import resource
+    # a defective tree must not be able to eat the machine: 6 GiB of address space, 10 min of CPU
+    resource.setrlimit(resource.RLIMIT_AS, (6 << 30, 6 << 30))
+    resource.setrlimit(resource.RLIMIT_CPU, (600, 600))
+
+
+def run_impl(binp, cases, extra_args=(), timeout_per_batch=None):
     """run the cases through the harness; a crash (abort / timeout) inside a case yields
     the lines printed so far followed by a `CRASH:<why>` marker for that case."""
     results = [None] * len(cases)
     start = 0
+    crashes = 0
     while start < len(cases):
+        if crashes >= 6:
+            # circuit breaker: the tree is badly broken; the crashes found so far are reported, the
+            # remaining cases are marked as not run (they count as neither agreement nor failure)
+            for j in range(start, len(cases)):
+                results[j] = ["NOT-RUN"] * len(cases[j])
+            break
         lines = [l for c in cases[start:] for l in c]
+        # watchdog: the harness does > 50 000 lines/s; a batch that needs 20x longer is hung
+        tmo = timeout_per_batch or (max(20, len(lines) // 2500) if crashes == 0 else 15)
         try:
             p = subprocess.run([binp] + list(extra_args), input="\n".join(lines) + "\n",
-                               capture_output=True, text=True, timeout=timeout_per_batch)
+                               capture_output=True, text=True, timeout=tmo, preexec_fn=_limits)
             out, rc, why = p.stdout, p.returncode, None
             if rc != 0:
                 why = f"exit{rc}"
@@ -179,20 +195,23 @@ def run_impl(binp, cases, extra_args=(), timeout_per_batch=600):
         # case i is where the process died
         partial = outl[pos:]
         results[i] = partial + [f"CRASH:{why or 'truncated'}"]
+        crashes += 1
         start = i + 1
     return results
 
 
 def run_model(cases):
-    lines = [l for c in cases for l in c]
-    out = run_driver(lines)
-    res, pos = [], 0
-    for c in cases:
-        res.append(out[pos:pos + len(c)])
-        pos += len(c)
-    if pos != len(out):
-        raise Infra(f"model driver printed {len(out)} lines for {pos} inputs")
-    return res
+    """run the cases through the model driver.  The model contains the *translated* index helpers, so
+    on a defective tree it can misbehave too (e.g. enumerate a 2^64-element range): it runs under the
+    same watchdog as the harness; a case on which it crashes gets the trace `None`."""
+    res = run_impl(DRIVER, cases)
+    out = []
+    for c, r in zip(cases, res):
+        if r and (r[-1].startswith("CRASH:") or r[0] == "NOT-RUN"):
+            out.append(None)
+        else:
+            out.append(r)
+    return out
 
 
 # ----------------------------------------------------------------------------- traces
